@@ -440,6 +440,25 @@ def run(ctx):
             shutil.rmtree(root, ignore_errors=True)
     late_declarations()
 
+    # (iii-g) the same union under a name and anonymously, nullable and not, in three definition orders
+    def union_orders():
+        parts = {"rec": "UzRec: !record\n  fields:\n    q: int\n", "user": "UzUser: !record\n  fields:\n    value: [int, float]\n    other: [null, string, UzRec]\n    tagged: !union {a: int, b: string}\n",
+                 "named": "UzReading: [int, float]\nUzMaybe: [null, string, UzRec]\nUzTagged: !union {a: int, b: string}\nUzSecond: [int, float]\n",
+                 "proto": "UzP: !protocol\n  sequence:\n    a: UzUser\n    b: !stream {items: [int, float]}\n    c: UzReading\n    d: !stream {items: UzMaybe}\n    e: UzTagged\n    f: UzSecond\n"}
+        for oi, order in enumerate([("rec", "user", "named", "proto"), ("rec", "named", "user", "proto"), ("proto", "named", "rec", "user")]):
+            root = os.path.join(ctx.workdir, "cases", "union_orders_%d" % oi)
+            shutil.rmtree(root, ignore_errors=True)
+            outs = ("cpp:\n  sourcesOutputDir: ../out/cpp\n  generateHDF5: false\n  generateCMakeLists: false\n  overrideArrayHeader: %s\npython:\n  outputDir: ../out/python\n" % cxx.ARRAY_HEADER)
+            common.write_tree(root, {"pkg/_package.yml": "namespace: UnionOrders\n" + outs, "pkg/model.yml": "".join(parts[k] for k in order)})
+            res = check_outputs(ctx, root, os.path.join(root, "pkg"), home, "named and anonymous uses of the same unions, definition order %s" % (order,), "union-orders", full_cpp=(oi == 0))
+            ctx.case(("union-orders", oi))
+            ctx.count("union-orders.%s" % res)
+            if res == "rejected":
+                ctx.violation("valid-model-rejected:union-orders", "the union-order model is rejected", {"case_dir": root})
+            elif res != "bad":
+                shutil.rmtree(root, ignore_errors=True)
+    union_orders()
+
     # (iv) init scaffolds
     def init(nm):
         root = os.path.join(ctx.workdir, "cases", "init_%s" % nm[:30])
